@@ -359,7 +359,7 @@ fn enumerate_graphs(n: usize, mut f: impl FnMut(&Graph) -> bool) -> bool {
 }
 
 pub fn run_c10(cx: &Cx) -> PropResult {
-    let per_shard = cx.n(4_000, 150_000);
+    let per_shard = cx.n(40_000, 800_000);
     let max_n = 4;
     let acc = parallel(cx, &|shard, acc| {
         // exhaustive part, split by graph index
